@@ -70,6 +70,13 @@ pub enum TOp {
     /// build a context on this thread (function table chosen by `variant`) and keep it; after the
     /// run all contexts built by all threads are moved to the main thread and probed there
     BuildContext { variant: usize },
+    /// clone-edit-publish, `n` times: clone the currently published context (other threads may be
+    /// evaluating against it), re-assign a variable to the value it has, publish the clone as the
+    /// next generation; finally a snapshot of the last generation
+    Reload { n: usize },
+    /// `n` evaluations of a shared tree, each against the context published at that moment; the
+    /// distinct results in order of first appearance (every generation behaves like the first)
+    Hammer { tree: usize, n: usize },
 }
 
 impl TOp {
@@ -94,6 +101,11 @@ impl TOp {
             TOp::EvalImplicit { tree } => Json::obj().with("op", Json::s("eval_implicit")).with("tree", Json::u(*tree as u64)),
             TOp::BuildContext { variant } => Json::obj().with("op", Json::s("build_context")).with("variant", Json::u(*variant as u64)),
             TOp::Panicky { arg } => Json::obj().with("op", Json::s("panicky")).with("arg", Json::i(*arg)),
+            TOp::Reload { n } => Json::obj().with("op", Json::s("reload")).with("n", Json::u(*n as u64)),
+            TOp::Hammer { tree, n } => Json::obj()
+                .with("op", Json::s("hammer"))
+                .with("tree", Json::u(*tree as u64))
+                .with("n", Json::u(*n as u64)),
         }
     }
 
@@ -120,6 +132,8 @@ impl TOp {
             "eval_implicit" => TOp::EvalImplicit { tree: j.u64_field("tree")? as usize },
             "build_context" => TOp::BuildContext { variant: j.u64_field("variant")? as usize },
             "panicky" => TOp::Panicky { arg: j.get("arg").and_then(|a| a.as_i64()).unwrap_or(0) },
+            "reload" => TOp::Reload { n: j.u64_field("n")? as usize },
+            "hammer" => TOp::Hammer { tree: j.u64_field("tree")? as usize, n: j.u64_field("n")? as usize },
             other => return Err(format!("unknown thread op {}", other)),
         })
     }
@@ -234,6 +248,9 @@ pub struct Shared {
     pub functions: Vec<Function<DefaultNumericTypes>>,
     pub sources: Vec<String>,
     pub scripts: Vec<Node>,
+    /// the context published last by `Reload` (generation 0: a clone of `ctx_main`); the lock is
+    /// held only to copy or replace the pointer, never across a library call
+    pub published: std::sync::Mutex<Arc<Ctx>>,
 }
 
 fn pure_function(name: &'static str) -> Function<DefaultNumericTypes> {
@@ -302,9 +319,11 @@ pub fn build_shared(w: &Workload) -> Result<Shared, String> {
         EvalexprError::CustomMessage("m".into()),
         EvalexprError::wrong_operator_argument_amount(1, 2),
     ];
+    let ctx_main = build_ctx(&w.setup, false);
     Ok(Shared {
         trees,
-        ctx_main: build_ctx(&w.setup, false),
+        published: std::sync::Mutex::new(Arc::new(ctx_main.clone())),
+        ctx_main,
         ctx_nobuiltins: build_ctx(&w.setup, true),
         empty: EmptyContext::default(),
         empty_builtins: EmptyContextWithBuiltinFunctions::default(),
@@ -516,6 +535,34 @@ fn exec_inner(op: &TOp, sh: &Shared) -> String {
                 Err(_) => format!("PANIC: {}", verifsim::env::last_panic().split(" at ").next().unwrap_or("")),
             };
             format!("{} then {}", first, second)
+        },
+        TOp::Reload { n } => {
+            for _ in 0..*n {
+                let current: Arc<Ctx> = sh.published.lock().unwrap().clone();
+                let mut next: Ctx = (*current).clone();
+                if let Some(v) = current.get_value("a").cloned() {
+                    let _ = next.set_value("a".to_string(), v);
+                }
+                *sh.published.lock().unwrap() = Arc::new(next);
+                crate::sched::harness_yield();
+            }
+            let last: Arc<Ctx> = sh.published.lock().unwrap().clone();
+            snapshot(&last)
+        },
+        TOp::Hammer { tree, n } => {
+            let t = match sh.trees.get(*tree) {
+                Some(t) => t,
+                None => return "no such tree".into(),
+            };
+            let mut seen: Vec<String> = Vec::new();
+            for _ in 0..*n {
+                let current: Arc<Ctx> = sh.published.lock().unwrap().clone();
+                let r = eval_entry(t, &*current, 0);
+                if !seen.contains(&r) {
+                    seen.push(r);
+                }
+            }
+            seen.join(" | ")
         },
         TOp::BuildContext { variant } => {
             let ctx = build_variant_context(*variant);
@@ -1255,6 +1302,35 @@ pub fn gen_workload_sized(rng: &mut Rng, small: bool) -> Workload {
             cold: false,
         };
     }
+    // rarely: hot reload under load - one thread clones and republishes the shared context many
+    // times while the others keep evaluating (inside user functions) against whatever is published
+    if !small && rng.percent(1) {
+        let nested = Expr::Call(
+            "r".to_string(),
+            Some(Box::new(Expr::Call("g".to_string(), Some(Box::new(Expr::Lit(Value::Int(3))))))),
+        );
+        let mut trees = trees;
+        let idx = trees.len();
+        trees.push(nested);
+        let mut assembled = assembled;
+        assembled.push(true);
+        let mut threads = vec![vec![TOp::Reload { n: rng.range(1200, 2000) as usize }]];
+        for _ in 0..rng.range(2, 3) {
+            threads.push(vec![TOp::Hammer { tree: idx, n: rng.range(800, 1400) as usize }]);
+        }
+        return Workload {
+            trees,
+            assembled,
+            sources,
+            scripts,
+            setup,
+            values,
+            threads,
+            extra_tree_sources: Vec::new(),
+            fresh: false,
+            cold: false,
+        };
+    }
     let n_threads = if many_threads { rng.range(5, 8) } else { rng.range(2, 4) };
     let mut threads = Vec::new();
     for _ in 0..n_threads {
@@ -1357,6 +1433,21 @@ pub fn shrink_workload(w: &Workload) -> Vec<Workload> {
             let mut c = w.clone();
             c.sources[i] = "1".to_string();
             out.push(c);
+        }
+    }
+    // fewer repetitions
+    for t in 0..w.threads.len() {
+        for k in 0..w.threads[t].len() {
+            let smaller = match &w.threads[t][k] {
+                TOp::Reload { n } if *n > 1 => Some(TOp::Reload { n: n / 2 }),
+                TOp::Hammer { tree, n } if *n > 1 => Some(TOp::Hammer { tree: *tree, n: n / 2 }),
+                _ => None,
+            };
+            if let Some(op) = smaller {
+                let mut c = w.clone();
+                c.threads[t][k] = op;
+                out.push(c);
+            }
         }
     }
     // shorten script lists
